@@ -299,7 +299,7 @@ class TlsHandshakeHelloRandom(ParsableBase):
 
     @time.default
     def _default_time(self):  # pylint: disable=no-self-use
-        return datetime.datetime.utcnow()
+        return datetime.datetime.utcnow().replace(microsecond=0)
 
     @random.default
     def _default_random(self):  # pylint: disable=no-self-use
